@@ -26,6 +26,10 @@ TARGETS = [
     (FULL + ".__init__", ("weights",), dict(L="none", sigma="scalar", y_cov_factor="mat", y_is_mean=False, with_uncertainty=False)),
     (FULL + ".__init__", ("weights",), dict(L="mat", sigma="scalar", y_cov_factor="none", y_is_mean=False, with_uncertainty=False)),
     (FULL + ".__init__", ("L", "W"), dict(L="none", sigma="scalar", y_cov_factor="none", y_is_mean=True, with_uncertainty=True)),
+    # the uncertainty flag must not change the weights (seeded change C16-1 hoisted the noise factor into _get_L on this path)
+    (FULL + ".__init__", ("weights",), dict(L="none", sigma="scalar", y_cov_factor="none", y_is_mean=True, with_uncertainty=True)),
+    (FULL + ".__init__", ("weights",), dict(L="none", sigma="scalar", y_cov_factor="none", y_is_mean=False, with_uncertainty=True)),
+    (FULL + ".__init__", ("weights",), dict(L="none", sigma="vec", y_cov_factor="none", y_is_mean=False, with_uncertainty=True)),
     (FULL + ".__init__", ("L", "W"), dict(L="none", sigma="scalar", y_cov_factor="none", y_is_mean=False, with_uncertainty=True)),
     (FULL + ".__init__", ("L", "W"), dict(L="none", sigma="vec", y_cov_factor="none", y_is_mean=False, with_uncertainty=True)),
     (FULL + ".__init__", ("L", "W"), dict(L="none", sigma="scalar", y_cov_factor="mat", y_is_mean=True, with_uncertainty=True)),
@@ -34,12 +38,15 @@ TARGETS = [
     (LM + ".__init__", ("weights",), dict(sigma="scalar", y_cov_factor="none", y_is_mean=True, with_uncertainty=False)),
     (LM + ".__init__", ("weights",), dict(sigma="scalar", y_cov_factor="none", y_is_mean=False, with_uncertainty=False)),
     (LM + ".__init__", ("L", "W"), dict(sigma="scalar", y_cov_factor="mat", y_is_mean=True, with_uncertainty=True)),
+    (LM + ".__init__", ("weights",), dict(sigma="scalar", y_cov_factor="mat", y_is_mean=True, with_uncertainty=True)),
     # Cholesky-latent
     (CH + ".__init__", ("weights",), dict(L="none", sigma="scalar", y_is_mean=True, with_uncertainty=False)),
     (CH + ".__init__", ("weights",), dict(L="none", sigma="scalar", y_is_mean=False, with_uncertainty=False)),
     (CH + ".__init__", ("weights",), dict(L="none", sigma="vec", y_is_mean=False, with_uncertainty=False)),
     (CH + ".__init__", ("weights",), dict(L="mat", sigma="scalar", y_is_mean=True, with_uncertainty=False)),
     (CH + ".__init__", ("L", "W"), dict(L="none", sigma="scalar", y_is_mean=True, with_uncertainty=True)),
+    (CH + ".__init__", ("weights",), dict(L="none", sigma="scalar", y_is_mean=True, with_uncertainty=True)),
+    (CH + ".__init__", ("weights",), dict(L="none", sigma="vec", y_is_mean=True, with_uncertainty=True)),
     (CH + ".__init__", ("L", "W"), dict(L="none", sigma="vec", y_is_mean=True, with_uncertainty=True)),
     (CH + ".__init__", ("L", "W"), dict(L="mat", sigma="scalar", y_is_mean=True, with_uncertainty=True)),
     (CH + ".__init__", ("L", "W"), dict(L="mat", sigma="vec", y_is_mean=True, with_uncertainty=True)),
